@@ -196,6 +196,38 @@ def _real_session(rng, buf, mode, filters, password, members, bs, tmp, tag, head
     return "%s %s %d %s" % (hcoders, ",".join(hk) or "-", bs, main)
 
 
+class TraceIO(io.BytesIO):
+    """BytesIO that records the positioned writes issued on it"""
+
+    def __init__(self, initial=b""):
+        super().__init__(initial)
+        self.ops = []
+
+    def write(self, b):
+        self.ops.append((self.tell(), bytes(b)))
+        return super().write(b)
+
+    def truncate(self, *a):
+        self.ops.append(("truncate", a))
+        return super().truncate(*a)
+
+
+def ops_tok(ops):
+    """canonical form of a write sequence: empty writes dropped, consecutive writes at consecutive offsets merged"""
+    out = []
+    for off, d in ops:
+        if off == "truncate":
+            out.append(["truncate", repr(d)])
+            continue
+        if not d:
+            continue
+        if out and out[-1][0] != "truncate" and out[-1][0] + len(out[-1][1]) == off:
+            out[-1][1] += d
+        else:
+            out.append([off, bytearray(d)])
+    return ";".join("%s:%s" % (o, hx(bytes(d)) if o != "truncate" else d) for o, d in out)
+
+
 def _gen_members(rng, counts=(1, 1, 2, 3, 4, 6, 9)):
     members = []
     for name in arclib.gen_names(rng, rng.choice(counts)):
@@ -215,6 +247,7 @@ def run_arch(ctx, n=None, n_app=None):
     lines, outs, cls = [], [], []
     alines, aouts, acls = [], [], []
     elines, eouts, ecls = [], [], []
+    olines, oouts, eolines, eoouts, aolines, aoouts = [], [], [], [], [], []
     try:
         os.mkdir(os.path.join(tmp, "d"))
 
@@ -232,10 +265,12 @@ def run_arch(ctx, n=None, n_app=None):
             lab, filters, password = pick(it)
             bs = rng.choice([1, 3, 4, 7, 64])
             members = _gen_members(rng)
-            buf = io.BytesIO()
+            buf = TraceIO()
             toks = _real_session(rng, buf, "w", filters, password, members, bs, tmp, "w%d" % it)
             lines.append("ws.arch " + toks)
             outs.append(hx(buf.getvalue()))
+            olines.append("ws.ops " + toks)
+            oouts.append(ops_tok(buf.ops))
             cls.append("%s%s/members=%d/dirs=%d" % (lab, "+AES" if password else "", len(members), sum(1 for m in members if m[1] == "dir")))
             ctx.count("ws.arch chain", lab + ("+AES" if password else ""))
         # the default header mode (and header encryption): the raw header goes through a compressor of its own and
@@ -245,10 +280,12 @@ def run_arch(ctx, n=None, n_app=None):
             header = "encoded" if password is None or it % 2 == 0 else "encrypted"
             bs = rng.choice([3, 4, 7, 64, 1000])
             members = _gen_members(rng)
-            buf = io.BytesIO()
+            buf = TraceIO()
             toks = _real_session(rng, buf, "w", filters, password, members, bs, tmp, "e%d" % it, header=header)
             elines.append("ws.enc " + toks)
             eouts.append(hx(buf.getvalue()))
+            eolines.append("ws.eops " + toks)
+            eoouts.append(ops_tok(buf.ops))
             ecls.append("%s/%s%s/members=%d" % (header, lab, "+AES" if password else "", len(members)))
         # append sessions: the model parses the base image with the READER model, extends the header object as
         # Header.initialize() / _after_write / flush_archive do, and re-serialises it after the new packed data
@@ -258,22 +295,29 @@ def run_arch(ctx, n=None, n_app=None):
             shape = rng.choice(["data", "data", "dirs-only", "empty-only", "single", "nothing"])
             base_members = {"data": _gen_members(rng), "dirs-only": [("d%d" % i, "dir", b"") for i in range(rng.choice([1, 2]))],
                             "empty-only": [("e", "empty", b"")], "single": [("one", "str", rng.randbytes(9))], "nothing": []}[shape]
-            buf = io.BytesIO()
+            buf = TraceIO()
             _real_session(rng, buf, "w", filters, password, base_members, bs, tmp, "b%d" % it)
             for k in range(rng.choice([1, 1, 2])):
                 base = buf.getvalue()
                 lab2, filters2, password2 = pick(rng.randrange(10 ** 6))
                 am = rng.choice([_gen_members(rng, (1, 2, 3)), _gen_members(rng, (1, 2, 3)), [("ad%d" % k, "dir", b"")], [("ae%d" % k, "empty", b"")], []])
                 # names must not repeat inside one archive for py7zr's bookkeeping of this stream (not a format rule)
+                buf.ops = []
                 toks = _real_session(rng, buf, "a", filters2, password2, am, rng.choice([1, 3, 4, 7, 64]), tmp, "a%d_%d" % (it, k))
                 alines.append("ws.app %s %s" % (hx(base), toks))
                 aouts.append(hx(buf.getvalue()))
+                aolines.append("ws.aops %s %s" % (hx(base), toks))
+                aoouts.append(ops_tok(buf.ops))
                 acls.append("base=%s/session=%d/%s->%s%s/members=%d" % (shape, k + 1, lab, lab2, "+AES" if password2 else "", len(am)))
     finally:
         shutil.rmtree(tmp, ignore_errors=True)
     ctx.correspond("ws.arch", lines, outs, cls)
     ctx.correspond("ws.app", alines, aouts, acls)
     ctx.correspond("ws.enc", elines, eouts, ecls)
+    # the ORDER in which the bytes reach the file (C14): the session's positioned writes vs the model's
+    ctx.correspond("ws.ops", olines, oouts, cls)
+    ctx.correspond("ws.eops", eolines, eoouts, ecls)
+    ctx.correspond("ws.aops", aolines, aoouts, acls)
     # the reader's model on exactly these inputs: Header._read vs Impl.readNextHeader on the headers the real sessions wrote
     import struct
     import hdrlib
